@@ -38,6 +38,8 @@ pub fn oracle_eval(name: &str, detail: &str) -> Option<bool> {
             Some(crate::serde_probe::deserialized_cc14_in_range(&g("c")?, &g("m")?, &g("v")?).unwrap_or(true))
         }
         "c04-constructed-message-in-range" => crate::ctors::range_oracle(&m),
+        #[cfg(feature = "with_serde")]
+        "c19-positional-representation-roundtrips" => crate::serde_probe::positional_oracle(m.get("type")?, m.get("json")?),
         "cc-roundtrip" => {
             let (c, msb, value): (u32, u32, u32) = (num(&m, "ch")?, num(&m, "msb")?, num(&m, "value")?);
             let mut sc = ControlChange14BitMessageScanner::new();
